@@ -17,8 +17,7 @@ echo "demo: clean rc=$rc_clean, patched rc=$rc_mut"
 tail -3 $d/demo_mut.out | cut -c1-300
 if [ -x /tmp/seedtools/pinned.py ]; then /tmp/seedtools/pinned.py $t | tail -3; fi
 cd /verif
-VERIF_REPO=$t ./vcheck $id "$@" 2>&1 | grep -E "VIOLATION|KNOWN-FINDING|^\[|rc=|exit|evidence|HARNESS" | cut -c1-400 | tail -15
+VERIF_EVIDENCE_DIR=$d/ev VERIF_REPO=$t ./vcheck $id "$@" 2>&1 | grep -E "VIOLATION|KNOWN-FINDING|^\[|rc=|exit|evidence|HARNESS" | cut -c1-400 | tail -15
 rc=${PIPESTATUS[0]}
 echo "vcheck rc=$rc"
-git -C /verif checkout -- evidence 2>/dev/null
 exit $rc
